@@ -46,7 +46,8 @@ var c10Sentinel = []byte("OPTIONS sip:sentinel@verif.invalid SIP/2.0\r\nCall-ID:
 func (l *c10Loop) run(buf []byte, n int) (*Message, error) {
 	h := func(m *Message) { l.out <- m }
 	l.u.msgParseChannel <- SizedByteArray{b: buf, n: n, msgHandler: h}
-	sb := make([]byte, 64*1024)
+	// the sentinel's buffer comes from (and returns to) the transport's own pool
+	sb := l.u.msgBufPool.Alloc()
 	copy(sb, c10Sentinel)
 	l.u.msgParseChannel <- SizedByteArray{b: sb, n: len(c10Sentinel), msgHandler: h}
 	var got *Message
@@ -122,7 +123,13 @@ func TestC10(t *testing.T) {
 	loop := newC10Loop()
 
 	eval := func(rt *rapid.T, m *AMsg, full []byte, d []byte, dirtKind int, expectValid, expectNothing bool, label string) {
-		buf := make([]byte, 64*1024)
+		// from the transport's own pool (the loop frees it into that pool, which
+		// keeps up to 40960 buffers: fresh ones per case would pile up), zeroed so
+		// that the case is a function of its draws only
+		buf := loop.u.msgBufPool.Alloc()
+		for i := range buf {
+			buf[i] = 0
+		}
 		switch dirtKind {
 		case 0: // the rest of the uncut message: stale bytes complete d
 			copy(buf, full)
